@@ -354,8 +354,8 @@ PLAIN_REGIONS = ("ram", "ram-top256", "int", "int-io", "card-beyond", "romslice"
 def describe(m: Model, addr: int, nbytes: int) -> Tuple[str, List[str]]:
     """(regions string, situation flags) of an access -- semantic, no raw values.
 
-    flags: a24 (address >= 2^24), hi-mapped / hi-plain (a byte address in 0x100100..0xFFFFFF whose cell is / is not
-    in an overlay, read-only range, ROM or the mirror target RAM), mir (a byte address is a non-canonical mirror
+    flags: a24 (address >= 2^24), hi-mapped / hi-plain (some byte address lies in 0x100100..0xFFFFFF and the access
+    touches / does not touch a cell in an overlay, read-only range, ROM or the mirror target RAM), mir (a byte address is a non-canonical mirror
     alias), split (the bytes' canonical cells are not consecutive), int-end (multi-byte access running past internal
     offset 0xFF), ext-top (multi-byte access running from external space into 0x100000), mir-split (mir + split),
     ovl-edge (multi-byte access whose bytes are not all inside the same overlay / all outside overlays), ro-edge
@@ -371,20 +371,16 @@ def describe(m: Model, addr: int, nbytes: int) -> Tuple[str, List[str]]:
     flags: List[str] = []
     if addr >= 0x1000000:
         flags.append("a24")
-    hi_mapped = hi_plain = mir = False
+    hi = mir = False
     for i in range(nbytes):
         r = ((addr + i) & 0xFFFFFFFF) & 0xFFFFFF
         if r >= INT + 0x100:
-            if per_byte[i] in PLAIN_REGIONS:
-                hi_plain = True
-            else:
-                hi_mapped = True
+            hi = True
         elif r < INT and m.mirror and MIRROR_LO <= r < MIRROR_BASE:
             mir = True
-    if hi_mapped:
-        flags.append("hi-mapped")
-    if hi_plain:
-        flags.append("hi-plain")
+    if hi:
+        # an access through 0x100100..0xFFFFFF: does it touch any mapped (overlay / read-only / ROM / mirror-RAM) cell?
+        flags.append("hi-plain" if all(n in PLAIN_REGIONS for n in per_byte) else "hi-mapped")
     if mir:
         flags.append("mir")
     split = False
